@@ -293,26 +293,31 @@ def validate(text, want_ack=True, record=True):
 
 
 def compress_calls(calls):
-    """add_ele / add_seg only replace the pending cursor: a run of them not interrupted by any other call is represented by
-    the last add_seg and the last add_ele of the run (keeps trace files small; nothing else is dropped or reordered)"""
+    """add_seg / add_ele only move the handler's cursors: of a run of them not interrupted by any other call keep the last add_ele, the add_seg
+    it followed (the segment object it was announced for) and the last add_seg, in their order (keeps trace files small; nothing else is
+    dropped or reordered)"""
     out = []
-    run_seg = run_ele = None
+    run = []
+
+    def flush():
+        if not run:
+            return
+        last_seg = max([i for i, c in enumerate(run) if c['op'] == 'add_seg'], default=None)
+        last_ele = max([i for i, c in enumerate(run) if c['op'] == 'add_ele'], default=None)
+        keep = set(x for x in (last_seg, last_ele) if x is not None)
+        if last_ele is not None:
+            seg_of_ele = max([i for i, c in enumerate(run[:last_ele]) if c['op'] == 'add_seg'], default=None)
+            if seg_of_ele is not None:
+                keep.add(seg_of_ele)
+        out.extend(run[i] for i in sorted(keep))
+        del run[:]
     for c in calls:
-        if c['op'] == 'add_seg':
-            run_seg = c
-            continue
-        if c['op'] == 'add_ele':
-            run_ele = c
-            continue
-        if run_seg is not None or run_ele is not None:
-            both = [x for x in (run_seg, run_ele) if x is not None]
-            both.sort(key=lambda x: calls.index(x))
-            out.extend(both)
-            run_seg = run_ele = None
-        out.append(c)
-    both = [x for x in (run_seg, run_ele) if x is not None]
-    both.sort(key=lambda x: calls.index(x))
-    out.extend(both)
+        if c['op'] in ('add_seg', 'add_ele'):
+            run.append(c)
+        else:
+            flush()
+            out.append(c)
+    flush()
     return out
 
 
@@ -831,7 +836,7 @@ def inputs(tier, seed):
                     if apply_fault(spec, f, where[0], where[1], where[2], tk, rnd):
                         emit('A:%s:%s:%s@%d.%d.%d' % (base, tk, f, where[0], where[1], where[2]), spec, tk, [f])
     # B: shapes x random fault combinations (multi-set / multi-group / multi-interchange)
-    nB = 250 if q else 5000
+    nB = 250 if q else 2500
     allf = SET_FAULTS + GROUP_FAULTS + ISA_FAULTS
     for n in range(nB):
         ver5 = rnd.random() < 0.4
@@ -1083,8 +1088,8 @@ def model_configs(prop, tier):
         out.append(('wide-997', gen_cfg(mi=2, mg=2, ms=1 if q else 2, bodyv=('ele',)), None, 0))
         out.append(('strays-trunc-999', gen_cfg(ver='5010', mg=2 if not q else 1, ms=2, bodyv=('unknown', 'ele'), strays=True, trunc=True), None, 0))
         if not q:
-            out.append(('env-variants-999', gen_cfg(ver='5010', envv=('ok', 'blank', 'trail', 'eleerr'), bodyv=('clean', 'ele'), trm=('rr', 'rw'), ta1=True), None, 0))
-            out.append(('sloppy-997', gen_cfg(mg=2, ms=2, bodyv=('ele',), sloppy=True, trunc=True, strays=True), None, 0))
+            out.append(('env-variants-999', gen_cfg(ver='5010', envv=('ok', 'blank', 'trail', 'eleerr'), bodyv=('clean', 'ele'), trm=('rr',), ta1=True), None, 0))
+            out.append(('sloppy-997', gen_cfg(mg=2, ms=1, bodyv=('ele',), sloppy=True, trunc=True, strays=True), None, 0))
             out.append(('body2-997', gen_cfg(mb=2, bodyv=ALLB, vals=MVALS), None, 0))
     else:
         out.append(('echo-body-997', gen_cfg(mb=2 if not q else 1, bodyv=ALLB, vals=MVALS), None, 0))
@@ -1094,11 +1099,11 @@ def model_configs(prop, tier):
         out.append(('env-variants-997', gen_cfg(envv=('ok', 'trail', 'eleerr'), bodyv=('clean', 'ele'), trm=('rr',)), None, 0))
         if not q:
             out.append(('trunc-999', gen_cfg(ver='5010', mg=2, ms=2, bodyv=('unknown', 'ele'), strays=True, trunc=True), None, 0))
-            out.append(('sloppy-997', gen_cfg(mg=2, ms=2, bodyv=('ele',), sloppy=True, trunc=True, strays=True), None, 0))
+            out.append(('sloppy-997', gen_cfg(mg=2, ms=1, bodyv=('ele',), sloppy=True, trunc=True, strays=True), None, 0))
     big = gen_cfg(ver='4010', mi=2, mg=2, ms=3, mb=2, envv=('ok', 'blank', 'trail', 'eleerr'), bodyv=ALLB, vals=MVALS, idm=('fresh', 'dup'),
                   trm=('rr', 'wr', 'rw'), sloppy=False, trunc=True, strays=True, ta1=True)
-    out.append(('simulate-full-bounds-997', big, 'num=%d' % (60 if q else 1500), 70))
-    out.append(('simulate-full-bounds-999', big.replace('Ver = "4010"', 'Ver = "5010"'), 'num=%d' % (40 if q else 1000), 70))
+    out.append(('simulate-full-bounds-997', big, 'num=%d' % (60 if q else 500), 70))
+    out.append(('simulate-full-bounds-999', big.replace('Ver = "4010"', 'Ver = "5010"'), 'num=%d' % (40 if q else 350), 70))
     return out
 
 
@@ -1127,7 +1132,7 @@ def run_models(chk, prop, tier, rnd):
         if not ss:
             raise vlib.MachineryError('AckGen %s emitted no scenario' % label)
         ver = '5010' if 'Ver = "5010"' in cfg else '4010'
-        cap = (60 if tier == 'quick' else 1200)
+        cap = (60 if tier == 'quick' else 450)
         byclass = {}
         for s in ss:
             byclass.setdefault((tuple(sorted(s['f5'])), tuple(sorted(s['f6']))), []).append(s)
@@ -1201,7 +1206,7 @@ def describe(rec, sig):
 def validate_records(chk, prop, recs, label):
     if not recs:
         return
-    n = max(40, min(200, len(recs) // vlib.NCPU + 1))
+    n = max(40, min(400, len(recs) // vlib.NCPU + 1))
     batches = [(prop, b) for b in vlib.chunked(recs, n)]
     results = vlib.parallel_map(_validate_batch, batches)
     byid = {r['id']: r for r in recs}
@@ -1299,5 +1304,5 @@ def run_check(prop, tier, replay=None):
         'clauses naming groups/sets are only claimed for inputs where every header and trailer finds its enclosing loop open (a missing trailer is implied '
         'by the next header); inputs on which validation raises (e.g. non-numeric GE01) carry no claim here (C07)',
         'echoed values "fit" unless the re-validation itself reports an element error at an echo position of the acknowledgement',
-        'handler call logs are compressed: a run of add_seg/add_ele calls is represented by its last add_seg and last add_ele']
+        'handler call logs are compressed: of a run of add_seg/add_ele calls only the last add_ele, the add_seg before it and the last add_seg are kept']
     return chk.finish()
